@@ -23,7 +23,7 @@ RULE = ("histories of 2-8 requester threads x 1-6 tagged S2F25 requests against 
         "and policy; non-trivial when at least two requests were outstanding simultaneously. SECS-I: histories of 2-6 "
         "requester threads with single- and multi-block S2F25 requests all outstanding together over a scripted line peer, then "
         "replies and unsolicited primaries (single/multi-block) in order / reversed / shuffled / with the blocks of different "
-        "messages interleaved / partly dropped, over 1-3 line close/reopen cycles, both device roles; plus (HSMS): replies with the abort function S2F0; a partial frame behind a complete message in one segment before the link loss")
+        "messages interleaved / partly dropped, over 1-3 line close/reopen cycles, both device roles; plus (HSMS): replies with the abort function S2F0; a partial frame behind a complete message in one segment before the link loss; a handler that is still running while the link is lost (peer close or disable + enable) and a new link brings 2-10 messages")
 ASSUMPTIONS = ["SECS-I histories keep the two directions in separate phases (only one side transmits at a time, as C17 assumes); "
                "line contention is not produced",
                "a reply that arrives after its requester timed out may be handed to the application as an ordinary message or be "
@@ -36,7 +36,7 @@ SHARDS = {"quick": 8, "thorough": 16}
 TIMEOUT = {"quick": 400, "thorough": 3400}
 FLOORS = {"histories.with_overlapping_requests": 50, "oracle.requests_checked": 500, "oracle.unsolicited_checked": 1000,
           "reconnect.cycles": 10, "interleaving.distinct_signatures": 20, "secsi.requests_checked": 200,
-          "secsi.rounds_with_interleaved_blocks": 10, "secsi.unsolicited_checked": 100}
+          "secsi.rounds_with_interleaved_blocks": 10, "secsi.unsolicited_checked": 100, "oracle.busy_handler_across_reconnect": 30}
 
 UNSOL_BASE = 0x70000000
 
@@ -776,8 +776,99 @@ def _handler_after_reenable(ctx, rounds):
             rig.shutdown()
 
 
+def _busy_handler_across_reconnect(ctx, rounds):
+    """The application is still inside a message handler when the link is lost and comes back: what arrives on the new link
+    is handed over after that handler returned - one at a time, in order, once - not next to it."""
+    from lib.hsmsrig import Rig
+
+    rng = ctx.rng
+    for r in range(rounds):
+        rig = Rig(active=False, t3=3.0)
+        release = threading.Event()
+        entered = threading.Event()
+        base = 0x61000000 + r * 256
+        running = []          # systems whose handler is running, to name the overlap in the witness
+        overlaps = []
+
+        def hook(rec, release=release, entered=entered, base=base, running=running, overlaps=overlaps):
+            if running:
+                overlaps.append((hex(running[-1]), hex(rec["system"])))
+            running.append(rec["system"])
+            try:
+                if rec["system"] == base:
+                    entered.set()
+                    release.wait(8.0)
+                else:
+                    time.sleep(0.0005)
+            finally:
+                running.remove(rec["system"])
+        rig.message_hook = hook
+        try:
+            if not rig.connect_and_select():
+                ctx.unsure("busy handler: could not select (C05 judges that)")
+                continue
+            behind = rng.randint(0, 3)          # further messages of the old link queued behind the busy handler
+            for i in range(1 + behind):
+                rig.pipe.feed(wire.hsms_data(99, 1, False, base + i, b""))
+            if not entered.wait(5.0):
+                ctx.unsure("busy handler: the first message was not handed over (other parts judge that)")
+                continue
+            how = rng.choice(["peer_close", "peer_close", "reenable"])
+            if how == "peer_close":
+                rig.pipe.peer_close()
+                closed = rig.pipe.wait_closed(5.0)
+            else:
+                closed = rig.close(5.0)
+                if closed:
+                    rig.owner.enable()
+            if not closed:
+                ctx.count("busy_handler.close_sequence_waits_for_the_handler")
+                release.set()
+                continue
+            # the new link: Select.req and a burst of messages arrive while the old handler is still running
+            n = rng.randint(2, 10)
+            rig.pipe.connect()
+            rig.pipe.feed(wire.hsms_control(wire.SELECT_REQ, base + 0x80))
+            for i in range(n):
+                rig.pipe.feed(wire.hsms_data(99, 3, False, base + 0x10 + i, b""))
+            time.sleep(rng.choice([0.02, 0.1, 0.3]))
+            release.set()
+            want_new = [base + 0x10 + i for i in range(n)]
+
+            def done():
+                with rig.lock:
+                    return sum(1 for m in rig.delivered if m["system"] in want_new) >= n
+            if not rig.wait(done, 6.0):
+                rig.confirm_absent(done)
+            rig.quiesce(0.5)
+            with rig.lock:
+                got = [m["system"] for m in rig.delivered]
+            got_new = [x for x in got if x in want_new]
+            got_old = [x for x in got if base <= x < base + 0x10]
+            ctx.count("oracle.busy_handler_across_reconnect")
+            ctx.case(("busy", how, behind, n), nontrivial=True)
+            wit = {"link_ended_by": how, "queued_behind_the_busy_handler": behind, "messages_on_new_link": n}
+            if overlaps or rig.max_in_callback > 1:
+                ctx.violation("message-callbacks-overlap:handler-still-running-when-the-link-came-back",
+                              {**wit, "max_concurrent_callbacks": rig.max_in_callback, "running/handed_over": overlaps[:4],
+                               "delivering_threads": len(rig.callback_threads)})
+            elif got_old != sorted(set(got_old)):
+                ctx.violation("messages-of-the-old-link-duplicated-or-reordered", {**wit, "delivered": [hex(x) for x in got_old]})
+            elif how == "peer_close" and got_new != want_new and rig.state == "CONNECTED_SELECTED":
+                # (after disable + enable what was received before the Select.rsp is the session model's business: C05)
+                kind = "lost" if len(set(got_new)) < n else "duplicated" if len(got_new) > n else "reordered"
+                ctx.violation(f"messages-of-the-new-link-{kind}:handler-still-running-when-the-link-came-back",
+                              {**wit, "sent": [hex(x) for x in want_new][:10], "delivered": [hex(x) for x in got_new][:10]})
+        finally:
+            release.set()
+            rig.close(5.0)
+            for t in vtime.pending(owner=rig.protocol):
+                t.cancel()
+
+
 def run(ctx):
     vtime.install()
+    _busy_handler_across_reconnect(ctx, 6 if ctx.quick else 150)
     _handler_after_reenable(ctx, 3 if ctx.quick else 60)
     inj = sched.YieldInjector(["secsgem/common/protocol.py", "secsgem/common/protocol_dispatcher.py", "secsgem/hsms/protocol.py",
                                "secsgem/common/byte_queue.py", "secsgem/common/block_send_info.py"])
